@@ -19,16 +19,16 @@ func init() {
 		Replay: replay,
 		Rule: "E1 over placements x prefix usages: modules a (prefix table: p->n1, q->n2) and b (p->n2, r->n1, a->a) are chosen so that the same prefix means different namespaces in the two modules and each module knows a prefix the other does not; a must, a when or a leafref path is placed directly in a, in a grouping of a used in a, in a grouping of a used from b, in an augment written in b into a's tree, in a typedef of a used from b (leafref), in a refine/augment inside b's uses of a's grouping, as a when on a uses of a foreign / local grouping or on an augment that contains a foreign uses, and in a deviation written in b; the expression is one of 28 (must, when) or 22 (leafref path) forms (prefix p / q / r / unknown, unprefixed, two prefixes, syntactically invalid forms from C04's reject set). " +
 			"Expected verdict: compiles iff the expression is syntactically valid and every prefix is known in the module where the statement is textually written; the error must name that module's file. On success every Name-Push of the compiled machine must carry the namespace the textual module's import table gives (unprefixed: the namespace of the module the node ends up in) and GetExpr() must be the source text. Non-trivial = every case.",
-		Bound: map[string]string{"quick": "10 placements x 4 statement kinds (must, a second must after a valid one, when, leafref path) x 12 expressions; 4 placements of a when written on a uses / augment x 12 expressions; 4 placements x 9 kind pairs x 5x4 expression pairs x 2 orders with a second statement written in b itself", "thorough": "same"},
+		Bound:       map[string]string{"quick": "10 placements x 4 statement kinds (must, a second must after a valid one, when, leafref path) x 12 expressions; 4 placements of a when written on a uses / augment x 12 expressions; 4 placements x 9 kind pairs x 5x4 expression pairs x 2 orders with a second statement written in b itself", "thorough": "same"},
 		Assumptions: []string{"for statements added by a deviation the namespace of unprefixed names is UNSPECIFIED (the node stays in the target module, the text is in the deviating module)"},
 	})
 }
 
 type expr struct {
-	Text   string
-	Valid  bool              // syntactically valid
-	Pfx    []string          // prefixes used
-	Names  map[string]string // local name -> prefix ("" unprefixed)
+	Text  string
+	Valid bool              // syntactically valid
+	Pfx   []string          // prefixes used
+	Names map[string]string // local name -> prefix ("" unprefixed)
 }
 
 var exprs = []expr{
@@ -96,11 +96,11 @@ var tableB = map[string]string{"p": "urn:n2", "r": "urn:n1", "a": "urn:a", "b": 
 
 type placement struct {
 	Name    string
-	Textual string // module whose text contains the statement: a | b
-	EndsIn  string // namespace of the node the statement ends up on
+	Textual string                          // module whose text contains the statement: a | b
+	EndsIn  string                          // namespace of the node the statement ends up on
 	Build   func(stmt string) (a, b string) // bodies of a and b
-	Node    string // dump path of the node carrying the statement
-	Unspec  bool   // unprefixed namespace unspecified
+	Node    string                          // dump path of the node carrying the statement
+	Unspec  bool                            // unprefixed namespace unspecified
 }
 
 func placements() []placement {
@@ -164,9 +164,10 @@ func placements() []placement {
 }
 
 type caseRec struct {
-	Placement string `json:"placement"`
-	Kind      string `json:"kind"` // must when path
-	Expr      int    `json:"expr"`
+	Placement   string `json:"placement"`
+	Kind        string `json:"kind"` // must when path
+	Expr        int    `json:"expr"`
+	ConfigFalse bool   `json:"config_false,omitempty"` // the carrying node is config false
 	// a second statement written directly in module b (same compilation)
 	OwnKind  string `json:"own_kind,omitempty"`
 	OwnExpr  int    `json:"own_expr,omitempty"`
@@ -214,6 +215,10 @@ func build(cr caseRec) (mods map[string]string, pl placement, e expr, ok bool) {
 	case "path":
 		e = paths[cr.Expr]
 		stmt = fmt.Sprintf("leaf lr { type leafref { path %q; } }", e.Text)
+	}
+	if cr.ConfigFalse {
+		// the node that carries the statement is state data: its expressions are compiled all the same
+		stmt = "config false; " + stmt
 	}
 	abody, bbody := pl.Build(stmt)
 	if cr.OwnKind != "" {
@@ -291,6 +296,9 @@ func check(cr caseRec) (vs []engine.Violation, outcome string) {
 	}
 	res := gen.Compile(mods, gen.Options{})
 	cls := cr.Placement + ":" + cr.Kind
+	if cr.ConfigFalse {
+		cls += "+config-false"
+	}
 	if cr.OwnKind != "" {
 		cls += "+own-" + cr.OwnKind
 	}
@@ -429,18 +437,23 @@ func run(c *engine.Ctx) {
 				if c.Expired() {
 					return
 				}
-				cr := caseRec{Placement: pl.Name, Kind: kind, Expr: i}
-				id := fmt.Sprintf("%s:%s:%d", pl.Name, kind, i)
-				if !c.Owns(id) || !c.Case(id) {
-					continue
-				}
-				c.Add("states", 1)
-				c.Add("transitions", 1)
-				c.Nontrivial()
-				vs, outcome := check(cr)
-				c.Outcome(kind + ":" + outcome)
-				for _, v := range vs {
-					c.Report(v)
+				for _, cf := range []bool{false, true} {
+					if cf && (kind == "rawwhen" || pl.Name == "typedef-of-a-used-from-b" || pl.Name == "deviation-from-b" || pl.Name == "refine-must-in-b") {
+						continue
+					}
+					cr := caseRec{Placement: pl.Name, Kind: kind, Expr: i, ConfigFalse: cf}
+					id := fmt.Sprintf("%s:%s:%d:%v", pl.Name, kind, i, cf)
+					if !c.Owns(id) || !c.Case(id) {
+						continue
+					}
+					c.Add("states", 1)
+					c.Add("transitions", 1)
+					c.Nontrivial()
+					vs, outcome := check(cr)
+					c.Outcome(kind + ":" + outcome)
+					for _, v := range vs {
+						c.Report(v)
+					}
 				}
 			}
 		}
